@@ -41,15 +41,19 @@ def run(tier):
         configs = [("cxx", {}, []), ("cxx-cfi", {"F_CFI": True}, [])]
         if thorough:
             configs += [("cxx-nodebug", {"debug": False}, []), ("cxx-cfi-nodebug", {"F_CFI": True, "debug": False}, [])]
-        # (F_CFI: without the 'char **' cases -- recorded finding C05 cfi-char-array: the module does not compile)
-        configs = [(n, o, a, [x for x in K.fortran_cases() if not (o.get("F_CFI") and any(p_["kind"] == "cstrv_in" for p_ in x["params"]))],
-                    "derived") for n, o, a in configs]
+        # (F_CFI: the case that has a 'char **' beside another character argument is run on its own below -- recorded
+        # finding: its API differs, a caller of the F_CFI-off API does not compile)
+        def charpp_mixed(x):
+            ks = [p_["kind"] for p_ in x["params"]]
+            return "cstrv_in" in ks and any(k_ in ("cstr_in", "str_cref", "str_ref_inout", "str_ref_out", "tdstr_in") for k_ in ks)
+        configs = [(n, o, a, [x for x in K.fortran_cases() if not (o.get("F_CFI") and charpp_mixed(x))], "derived") for n, o, a in configs]
+        configs.append(("cfi-charpp", {"F_CFI": True}, [], [x for x in K.fortran_cases() if charpp_mixed(x)], False))
         # F_CFI is an option like any other: switched on for single functions (every second one) beside functions
         # that use the bufferify form; the Fortran API and its behaviour are the same
         mixed = []
         for k_, x_ in enumerate(K.fortran_cases()):
             x_ = dict(x_)
-            if k_ % 2 == 0 and not any(p_["kind"] == "cstrv_in" for p_ in x_["params"]):
+            if k_ % 2 == 0 and not charpp_mixed(x_):
                 x_["yaml_extra"] = dict(x_.get("yaml_extra") or {}, options={"F_CFI": True})
             mixed.append(x_)
         configs.append(("cxx-mixed-cfi", {}, [], mixed, True))
